@@ -6,7 +6,7 @@ for l in sys.stdin:
     l=l.rstrip()
     if l.startswith('{'):
         try:
-            d=json.loads(l); print(d.get('rendered') or d.get('message'))
+            d=json.loads(l); print(d.get('rendered') or d.get('message')) if d.get('level')=='error' else None
         except Exception: print(l[:300])
     else: print(l)
 "
